@@ -45,12 +45,15 @@ def main():
             rc, out = sh(cmd, cwd=wt)
             res["demo_fails_with_change"] = rc != 0
             res["demo_output_with_change"] = out[-1500:]
-            sh("git stash -q", cwd=wt)  # removes tracked changes only; demo files are untracked
+            # take the change out and put it back with a patch file of this worktree (NOT git stash: the stash is shared by all
+            # worktrees of /repo, and two of these runs side by side would pop each other's change)
+            sh("git diff --binary HEAD > .seedrun-change.diff && git apply -R .seedrun-change.diff", cwd=wt)
             rc, out = sh(cmd, cwd=wt)
             res["demo_passes_without_change"] = rc == 0
             if rc != 0:
                 res["demo_output_without_change"] = out[-1500:]
-            sh("git stash pop -q", cwd=wt)
+            rc2, out2 = sh("git apply .seedrun-change.diff && rm -f .seedrun-change.diff", cwd=wt)
+            assert rc2 == 0, out2
             for f in demos:
                 os.remove(os.path.join(wt, pkg, f))
         res["checks"] = {}
